@@ -179,6 +179,18 @@ func (e *Exec) intrinsic(st *State, fn *ssa.Function, args []Value, callSite ssa
 			return ret(st, c.Implies(args[0].(*Term), args[1].(*Term))), true
 		case "vfIteInt", "vfIteU32", "vfIteBool", "vfIteF32":
 			return ret(st, c.Ite(args[0].(*Term), args[1].(*Term), args[2].(*Term))), true
+		case "vfFreezeAll":
+			// C17 monitor: every object that exists now (the shared font, every package-level
+			// variable and table) becomes read-only; a later store into one of them is a violation
+			n := 0
+			for _, o := range e.allObjs {
+				if !o.frozen {
+					o.frozen = true
+					n++
+				}
+			}
+			e.note(fmt.Sprintf("frozen-region monitor armed on %d objects", n))
+			return ret(st, nil), true
 		case "vfThorough":
 			return ret(st, c.Bool(e.cfg.Thorough)), true
 		case "vfObserve":
@@ -301,6 +313,11 @@ func (e *Exec) intrinsic(st *State, fn *ssa.Function, args []Value, callSite ssa
 	case "math.IsNaN":
 		return ret(st, c.FIsNaN(args[0].(*Term))), true
 	case "math.Floor", "math.Ceil", "math.Log2", "math.Pow", "math.Round", "math.Trunc", "math.Sqrt", "math.Abs", "math.Log", "math.Exp", "math.Mod":
+		if x, ok := args[0].(*Term); ok && !x.IsConst() && len(args) == 1 {
+			if mode, ok := map[string]int{"math.Floor": 0, "math.Ceil": 1, "math.Trunc": 2, "math.Round": 3, "math.Abs": 4, "math.Sqrt": 5}[full]; ok {
+				return ret(st, c.FUnary(mode, x)), true
+			}
+		}
 		return ret(st, e.mathConcrete(full, args)), true
 	case "(*sync.Mutex).Lock", "(*sync.Mutex).Unlock", "(*sync.RWMutex).Lock", "(*sync.RWMutex).Unlock", "(*sync.RWMutex).RLock", "(*sync.RWMutex).RUnlock":
 		return ret(st, nil), true
